@@ -13,6 +13,10 @@ CHECKS = {
              note=TB + 'cav_dp: numpy arange length per window observed, not modelled.', tech='Coq proof over R (list induction, lra/nra) + Q-model correspondence by vm_compute', ref='3/C09'),
  'C10': dict(text='First/last-qualifying-index characterisation (with uniqueness), ordering 0<=start<=end<=duration, amplitude-scale invariance (array, Arias and any positively scaling custom measure), shift by k zeros, widening, bracketed-duration definition, empty case, antitonicity in the threshold and joint scaling are Coq theorems over R (model/M_im.v, lib/Where.v). Tie: exact correspondence of indices/times through calc_sig_dur_vals, calc_sig_dur (Arias + custom callables) and calc_brac_dur, thresholds placed on sample values.',
              note=TB + 'For calc_sig_dur the cumulative series given to the model is the public measure function output on the same signal.', tech='Coq proof over R (np.where characterisation lemmas) + Q-model correspondence by vm_compute', ref='3/C10'),
+ 'C11': dict(text='Membership characterisation (reported = index 0, first sample of the final plateau, and exactly the plateau starts entered and left by strict moves of opposite sign), ascending order, first=0, last=final plateau start, monotone-between and strict alternation of segment directions, n_cyc length are Coq theorems over R about the declarative model model/M_peaks.v. Partial: the max/min parity selection and the +0.5/0.25 n_cyc step clauses are not theorems; they are decided by the exhaustive correspondence (every series over a 5-level alphabet up to length 6/8) only. Tie: exact index comparison, exhaustive + random plateau-rich series through get_peak_array_indices (all/max/min) and get_n_cyc_array.',
+             note=TB + 'The model is declarative (a filter over indices), not a transliteration of the ediff1d/where pipeline: the exhaustive correspondence is what ties it to the code.', tech='Coq proof over R (order reasoning, list induction) + exhaustive small-alphabet correspondence by vm_compute', ref='3/C11'),
+ 'C12': dict(text='Zero crossings at tol=0: membership characterisation (index 0, exact zeros - first of a run unless keep_adj_zeros - and the first sample after each strict sign change), ascending, starts at 0, tol>0 result is a subsequence of the tol=0 result: Coq theorems over R (model/M_peaks.v). Switched peaks: subsequence of the C11 peak list for every tol and ascending are theorems. Partial: one-per-excursion at the largest |value|, zero-valued turning points, no shared strict sign, global abs-max included and the tol-subsequence clause for switched peaks are not theorems; they are decided by the exhaustive correspondence (all series over {-2..2} to length 6/8, {-3..3} to 4/6) and by a subsequence checker evaluated on implementation outputs.',
+             note=TB, tech='Coq proof over R (filter characterisation, sublist lemmas) + exhaustive small-alphabet correspondence by vm_compute', ref='3/C12'),
 }
 NA = {}
 ALL = ['C%02d' % i for i in range(1, 21)]
